@@ -182,7 +182,7 @@ CHECKS['C06'] = dict(
              'monad with bound and ignore predicates closed under bind / retry), differential correspondence, sanitizer runs',
    design='4/C05-C06')
 CHECKS['C11'] = dict(
-   text='PARTIAL (decision logic, pattern coverage, codec survival, binary search and fallback proved; each test tied to the retry/time-out sequencing model by C11_test_sequencing, whole-handshake scripts against the relay family by runs only; random-case '
+   text='PARTIAL (decision logic, pattern coverage, codec survival, binary search and fallback proved; the autodetect steps of the retry/time-out sequencing model compute exactly these decision functions on every consistently answering path (C11_handshake_computes_decisions, C11_test_sequencing); that a relay of the family answers as bounce/downcheck/probe say is validated by runs only; random-case '
         'member under an explicit hypothesis; three known findings). Coq theorems over the relay family (case keep/lower/upper/random x 8-bit clean/strip/reject x punctuation keep/mangle +/mangle _, on either side, size '
         'limits, EDNS0, record-type sets): the test patterns cover every alphabet character a deterministic relay can alter (by reflection over the 27 members), '
         'so the upstream codec selected survives the query side for every payload (via the C07 round trip); the downstream codec selected delivers every payload '
